@@ -119,6 +119,49 @@ def defaultRetry : Nat := (Got.Facts.lits_ants_createTaskOptions.getD 1 1).toNat
 def effT (o : Opts) : Nat := if o.timeout > 0 then o.timeout.toNat else defaultTimeout
 def effR (o : Opts) : Nat := if o.retry > 0 then o.retry.toNat else defaultRetry
 
+/-! ### option functions (task_option.go, pool_option.go): pure functions on the options record, applied left to right -/
+
+/-- a TaskOption value -/
+inductive TOpt where
+  | timeout (d : Int)       -- WithTimeout(d): assigns only if d > 0
+  | retry (n : Int)         -- WithRetry(n): assigns only if n > 0
+  | discard (b : Bool)      -- WithDiscardOnBusy(b): assigns
+  | onError (set : Bool)    -- WithError(f): assigns, also nil (set = false)
+  deriving Repr, DecidableEq, Inhabited
+
+/-- the record createTaskOptions starts from: timeout 365 days, retry 1, discardOnBusy true, onError nil -/
+def defaultOpts : Opts :=
+  { timeout := Int.ofNat defaultTimeout, retry := Int.ofNat defaultRetry, discard := true, hasCb := false }
+
+def TOpt.apply (o : Opts) : TOpt → Opts
+  | .timeout d => if d > 0 then { o with timeout := d } else o
+  | .retry n => if n > 0 then { o with retry := n } else o
+  | .discard b => { o with discard := b }
+  | .onError f => { o with hasCb := f }
+
+/-- createTaskOptions: `for _, opt := range optionList { opt(&opts) }` -/
+def applyOptions (l : List TOpt) : Opts := l.foldl TOpt.apply defaultOpts
+
+/-- a PoolOption value -/
+inductive POpt where
+  | size (n : Int)            -- WithSize(n): assigns only if n > 0
+  | ctxBuilder (set : Bool)   -- WithContextBuilder(f): assigns only if f != nil (set = true)
+  deriving Repr, DecidableEq, Inhabited
+
+structure PoolOpts where
+  size : Nat
+  customCtx : Bool            -- a caller-supplied context builder is in effect (default: context.Background)
+  deriving Repr, DecidableEq, Inhabited
+
+/-- createPoolOptions starts from size 1 and the Background builder -/
+def defaultPoolOpts : PoolOpts := { size := (Got.Facts.lits_ants_createPoolOptions.getD 0 1).toNat, customCtx := false }
+
+def POpt.apply (o : PoolOpts) : POpt → PoolOpts
+  | .size n => if n > 0 then { o with size := n.toNat } else o
+  | .ctxBuilder f => if f then { o with customCtx := true } else o
+
+def applyPoolOptions (l : List POpt) : PoolOpts := l.foldl POpt.apply defaultPoolOpts
+
 structure Task where
   pc : TPc := .none
   T : Nat := 1
@@ -144,7 +187,23 @@ structure Task where
 structure Cfg where
   N : Nat
   old : Bool := false
+  /-- the contexts returned by the pool's context builder (the `ctx` argument of `task.run`) are cancelled at this
+      instant (`none`: never, e.g. the default context.Background). The instant is a parameter of the execution. -/
+  baseCancelAt : Option Nat := none
   deriving Repr, Inhabited
+
+/-- the dispatcher's own context is already cancelled -/
+def baseDone (c : Cfg) (now : Nat) : Bool :=
+  match c.baseCancelAt with
+  | some x => decide (x ≤ now)
+  | none => false
+
+/-- the instant at which ctx1 = WithTimeout(ctx, T), created now, is done at the latest: its own deadline or the
+    cancellation of its parent, whichever comes first -/
+def ctxDeadline (c : Cfg) (now T : Nat) : Nat :=
+  match c.baseCancelAt with
+  | some x => if now < x then min (now + T) x else now + T
+  | none => now + T
 
 structure State where
   now : Nat := 0
@@ -238,7 +297,10 @@ def tstep (c : Cfg) (now : Nat) (qlen : Nat) (t : Task) : Act → Option Task
   | .loopTest _ =>
     if t.pc = .loopTest then
       if t.att < t.R then
-        some { (t.setAt t.att { deadline := now + t.T, beginAt := now }) with pc := .sendCl, att := t.att + 1 }
+        -- context.WithTimeout(ctx, T): a child of a cancelled parent is done at once (its Err is Canceled; the code
+        -- nevertheless records DeadlineExceeded for the attempt)
+        some { (t.setAt t.att { deadline := ctxDeadline c now t.T, beginAt := now, ctxDone := baseDone c now }) with
+                 pc := .sendCl, att := t.att + 1 }
       else some { t with pc := .onError }
     else none
   | .sendCl _ =>
